@@ -150,6 +150,10 @@ def r1(ctx):
                             n += 1
                             ctx.check(ls == le, R, f"{lab}:size==len(encode)[{' & '.join(sorted(set(cs + ce))) or 'always'}]", m, ci.methods["size"], f"size() = {LN.l_fmt(le)} (what encode() produces)", f"size() = {LN.l_fmt(ls)}")
                     ctx.require(n > 0, f"{m.relpath}: {cname}: no comparable size/encode paths")
+                    # every way encode() can produce bytes must have been compared with a size() result
+                    for ce, le, _ in enc:
+                        if not any(LN.compatible(cs, ce) and _self_consistent(cs + ce) for cs, _, _ in sz):
+                            raise AnalysisError(f"{m.relpath}: {cname}: size() has no analysable result for the case [{' & '.join(sorted(set(ce))) or 'always'}] that encode() handles")
                 else:
                     parts = {k: [(c, l) for c, l, v in _paths(ctx, m, ci, k, union) if _self_consistent(c) and l is not None] for k in ("non_repeat_size", "repeat_count", "repeat_size")}
                     ctx.require(all(parts.values()), f"{m.relpath}: {cname}: sub-encoder size methods not analysable")
